@@ -201,6 +201,20 @@ Theorem C04_chain_other_documents_untouched : forall w r path x d k, wfw w ->
 Proof. exact chain_set_other_doc. Qed.
 Print Assumptions C04_chain_other_documents_untouched.
 
+(* the other API calls that are two steps in one expression — add<JsonArray>() / add<JsonObject>() / createNested*(),
+   r[k].to<JsonArray>() / createNested*(k), and d = std::move(s) — are runs of steps of the model as well *)
+Theorem C04_typed_add_is_steps : forall w r arr, exists ops, fst (add_typed w r arr) = run w ops.
+Proof. exact add_typed_is_run. Qed.
+Print Assumptions C04_typed_add_is_steps.
+
+Theorem C04_typed_member_is_steps : forall w r k arr, exists ops, fst (nest_typed w r k arr) = run w ops.
+Proof. exact nest_typed_is_run. Qed.
+Print Assumptions C04_typed_member_is_steps.
+
+Theorem C04_move_is_copy_then_clear : forall w d s, fst (doc_move w d s) = run w [ODocCopy d s; ODocClear s].
+Proof. exact doc_move_is_run. Qed.
+Print Assumptions C04_move_is_copy_then_clear.
+
 Example C04_chain_write_example :   (* doc0["a"][1]["b"] = 5 on an empty document *)
   map to_jv (docs (fst (chain_set (init_world 1) 0 [PKey [97]; PIdx 1; PKey [98]] (SInt 5))))
   = [JObj [([97], JArr [JNull; JObj [([98], JInt 5)]])]].
